@@ -29,7 +29,9 @@ POLL = 2
 TSMALL = 2 * POLL
 
 RULE = ('D-run case = (object configs, thread programs of acquire/critical-section/release rounds through acquire(), '
-        'acquire_ctx() and the with-statement, blocking / non-blocking / timed, reentrant nesting and forced release, '
+        'acquire_ctx() and the with-statement (every second context-manager exit leaves the block through an exception: '
+        'ValueError, a harness BaseException that is not an Exception, asyncio.CancelledError, in rotation), blocking / '
+        'non-blocking / timed, reentrant nesting and forced release, '
         'optional OSError script, schedule = thread chosen at every gate) run on the real FileLock with real '
         'open/flock/close on a real lock file; gates = the harness "call" gate at every API call, thread-lock '
         'acquire/release, os.open, flock, os.close, time.sleep; the model replays the realised schedule one step per gate '
